@@ -903,6 +903,10 @@ async fn input_processing(
             .enumerate()
         {
             if let Some(mask_other) = mask_other {
+                // Only input wires carry a masked input (and have an input label).
+                if w >= num_inputs {
+                    return Err(MpcError::ConflictingInputMask(w).into());
+                }
                 if masked_input.is_some() {
                     return Err(MpcError::ConflictingInputMask(w).into());
                 }
